@@ -400,8 +400,10 @@ class World:
         if k == "load":
             out = self.load(op["text"])
         elif k == "restart":
+            self.stats["fault:RESTART_" + op.get("via", "string").upper()] += 1  # crash point: only cssText survives
             out = self.restart(op.get("via", "string"))
         elif k == "node_restart":
+            self.stats["fault:NODE_RESTART"] += 1
             out = self.node_restart(op)
         else:
             rules = flat(s)
